@@ -226,7 +226,8 @@ def r012_slicing(ctx, rule):
                f"the sample-parameter column is named {Aw.show(cols[0].data['key'], 120)}: metrics registered under different keys can "
                "collide and receive each other's per-sample parameters", construct="sample param column name")
     am = [e for e in rw.events if e.kind == "call" and e.data.get("constructs") == AMF]
-    ok = len(am) == 1 and kw(am[0], "func") is rw.params["func"] and root_of(kw(am[0], "kw_argument_mapping")).op == "dict" \
+    ok = len(am) == 1 and kw(am[0], "func") is rw.params["func"] and kw(am[0], "name") is rw.params["name"] \
+        and root_of(kw(am[0], "kw_argument_mapping")).op == "dict" \
         and kw(am[0], "positional_argument_names") is mk("list", (const("y_true"), const("y_pred")))
     ctx.ob(rule, rw.func, am[0].node if am else None, ok, "the wrapper is built with the metric, positional names (y_true, "
            "y_pred) and that mapping", construct="wrapper construction")
@@ -251,6 +252,13 @@ def r012_slicing(ctx, rule):
         if cv.args[0] is Aw.C._not(notnone):
             return cv.args[2] is Aw.C.canon(param) and not contains(cv.args[1], lambda s_: s_ is param)
         return False
+    nm = h.get((ri.self_term, "name"))
+    cn = Aw.C.canon(nm) if nm is not None else None
+    isnone = Aw.C.canon(mk("cmp", "is", ri.params["name"], NONE))
+    okn = cn is not None and cn.op == "ite" and ((cn.args[0] is isnone and cn.args[2] is ri.params["name"]) or
+                                                  (cn.args[0] is Aw.C._not(isnone) and cn.args[1] is ri.params["name"]))
+    ctx.ob(rule, ri.func, None, okn, "a given name is kept (the function's own name is used only when none is given), so metrics "
+           "registered under different keys stay distinct", construct="wrapper keeps given name")
     okd = given_or_default(h.get((ri.self_term, "kw_argument_mapping")), ri.params["kw_argument_mapping"]) and \
         given_or_default(h.get((ri.self_term, "postional_argument_names")), ri.params["positional_argument_names"])
     ctx.ob(rule, ri.func, None, okd, "a given mapping / list of positional names is kept; the default is used only when none is given"
@@ -306,6 +314,14 @@ def r015_param_routing(ctx, rule):
         ctx.ob(rule, fq, st[0].node if st else c_.node, ok, "the wrapper is registered under its own name", construct=f"registration {c_.line}")
     ok = bool(r.returns) and all(v.op in ("upd", "loopout", "dict") for _, v in r.returns)
     ctx.ob(rule, fq, None, ok, "the dictionary of wrappers is returned", construct="routing result")
+    # the flag that makes the public results scalars / Series (single callable) or frames (dictionary)
+    fl = [x for x in r.events if x.kind == "store" and x.data.get("tkind") == "attr" and x.data["attr"] == "_user_supplied_callable" and x.func == fq]
+    okf = len(fl) == 2
+    for x in fl:
+        lits = [A.C.canon(l) for l in pc_literals(x.pc)]
+        okf = okf and ((x.data["value"] is TRUE and A.C._not(isd) in lits) or (x.data["value"] is FALSE and isd in lits))
+    ctx.ob(rule, fq, fl[0].node if fl else None, okf, "_user_supplied_callable is True exactly for a bare callable",
+           construct="callable flag")
 
 
 def r013_grouping(ctx):
